@@ -614,6 +614,22 @@ func run(r *mon.Run) {
 				return pl.String()
 			})
 		}
+		// non-ASCII runes whose low byte is an allowed character (a byte-wise check after truncation would let them through)
+		for _, lowc := range []byte("aZ0_-.:%*/") {
+			for _, hi := range []rune{0x100, 0x200, 0x1f600} {
+				rn := string(hi + rune(lowc))
+				mustRefuse(r, fmt.Sprintf("token with rune U+%04X", hi+rune(lowc)), func() (string, error) { return sh.ListOfLists{{sh.Token("t" + rn + "x")}}.String() })
+				mustRefuse(r, fmt.Sprintf("label with rune U+%04X", hi+rune(lowc)), func() (string, error) {
+					pl := sh.ParameterisedList{{Label: sh.Token("t" + rn)}}
+					return pl.String()
+				})
+				mustRefuse(r, fmt.Sprintf("key with rune U+%04X", hi+rune(lowc)), func() (string, error) {
+					pl := sh.ParameterisedList{{Label: tok, Params: sh.Parameters{sh.Key("k" + rn): int64(1)}}}
+					return pl.String()
+				})
+				mustRefuse(r, fmt.Sprintf("string with rune U+%04X", hi+rune(lowc)), func() (string, error) { return sh.ListOfLists{{"s" + rn}}.String() })
+			}
+		}
 		mustRefuse(r, "empty parameterised list", func() (string, error) { return sh.ParameterisedList{}.String() })
 		mustRefuse(r, "nil parameterised list", func() (string, error) { return sh.ParameterisedList(nil).String() })
 		mustRefuse(r, "empty list of lists", func() (string, error) { return sh.ListOfLists{}.String() })
